@@ -78,6 +78,50 @@ def r1(ctx, prop=P, rule="C04.R1"):
                   "BlockStore::put writes proof.block.value", "BlockStore::put at %s writes %s" % (loc(fa, s), term_str(o)[:100]), [site_desc(fa, s)])
 
 
+def r1b(ctx):
+    """what `commitable` demands: same fork, and the changeset was made from the current length
+    (exactly for an upgrade, at most for a block-only changeset)"""
+    rule = "C04.R1"
+    from .c09 import dominating_conditions
+    fa = ctx.fn(MT_COMMITABLE)
+    if not need(ctx, P, rule, MT_COMMITABLE, fa):
+        return
+    rets = ret_assigns(fa)
+    sw = list(bool_switches(fa, lambda o: o[0] == "bin" and o[1] in ("Eq", "Ne") and {term_str(strip(o[2])), term_str(strip(o[3]))} == {"changeset.original_tree_fork", "self.fork"}))
+    good_fork = False
+    if sw:
+        b, o, tr, fl = sw[0]
+        differ = fl if o[1] == "Eq" else tr
+        vals = [t for bb, _, t in rets if bb in fa.reach(differ, include_src=True) and not fa.dominates(tr if o[1] == "Eq" else fl, bb)]
+        good_fork = any(term_is_lit(v, 0) for _, _, v in rets) and all(term_is_lit(t, 0) for bb, _, t in rets if fa.dominates(differ, bb))
+    # the length comparison returned on the fork-equal side
+    cmps = {}
+    for x in subterms(mkjoin_([t for _, _, t in rets])):
+        if isinstance(x, tuple) and x[0] == "bin" and x[1] in ("Eq", "Le", "Lt", "Ge", "Gt", "Ne") and "original_tree_length" in term_str(x):
+            cmps[term_str(x)] = x
+    # which comparison belongs to `upgraded`
+    up = list(bool_switches(fa, lambda o: path_of(strip(o)) == "changeset.upgraded"))
+    good_len = False
+    if up:
+        b, o, tr, fl = up[0]
+        def cmp_on(edge):
+            out = []
+            for bb in fa.reach(edge, include_src=True):
+                if not fa.dominates(edge, bb):
+                    continue
+                for si_, st in enumerate(fa.blocks[bb].stmts):
+                    if st["k"] == "assign" and st["rv"]["k"] == "bin" and st["rv"]["op"] in ("Eq", "Le", "Lt", "Ge", "Gt", "Ne"):
+                        l_, r_ = term_str(strip(fa.origin_operand(st["rv"]["l"], bb, si_))), term_str(strip(fa.origin_operand(st["rv"]["r"], bb, si_)))
+                        if "original_tree_length" in l_ + r_:
+                            out.append((st["rv"]["op"], l_, r_))
+            return out
+        good_len = cmp_on(tr) == [("Eq", "changeset.original_tree_length", "self.length")] and cmp_on(fl) == [("Le", "changeset.original_tree_length", "self.length")]
+    ctx.check(P, rule, "commitable: a changeset of another fork is never commitable", good_fork, "original_tree_fork != self.fork => false", "commitable does not return false for a changeset made on another fork", key="C04|C04.R1|commitable|fork")
+    ctx.check(P, rule, "commitable: an upgrade must have been made from exactly the current length, a block-only changeset from at most it", good_len,
+              "upgraded: original_tree_length == self.length; otherwise original_tree_length <= self.length",
+              "commitable's length condition differs from (upgraded: ==, otherwise: <=): %s" % sorted(cmps), key="C04|C04.R1|commitable|length")
+
+
 def r2(ctx):
     rule = "C04.R2"
     found = []
@@ -385,7 +429,7 @@ def r6(ctx):
                 ctx.check(P, rule, "%s stores the computed hash" % nm, term_has_call(h, HASH_DATA if f is fb else HASH_PARENT) is not None, "hash from Hash::*", "%s stores hash %s" % (nm, term_str(h)[:80]))
 
 
-RULES = [r1, r2, r3, r3b, r4, r5, r6]
+RULES = [r1, r1b, r2, r3, r3b, r4, r5, r6]
 
 EXPLANATION = ("C04 (forged proofs never change a replica): decides the gate chain as dominance facts — fork and commitable gates and a ?-checked "
                "verify_proof dominate every storage/oplog/bitfield/tree/header/event effect of verify_and_apply_proof and the applied changeset is the verified one (R1); "
